@@ -156,27 +156,55 @@ func main() {
 			engine := host.Engines[h(seed, "e", b.ID, txi)%uint32(len(host.Engines))]
 			src, kind := inject(Render(cur), variant, b.ID*1000+txi)
 			w.ComputationGauge, w.MemoryGauge = nil, nil
-			if variant == "complimit" {
-				budget := uint64(1 + h(seed, "c", b.ID, txi)%60)
+			if variant == "complimit" || variant == "memlimit" {
+				// measure the execution's total metering from the same state, then choose the budget:
+				// half of the time just below the total (the limit then trips in the last meterings,
+				// i.e. inside the commit), otherwise anywhere
+				snap := w.Snapshot()
+				var totalC, totalM uint64
+				w.ComputationGauge = common.FunctionComputationGauge(func(u common.ComputationUsage) error { totalC += u.Intensity; return nil })
+				w.MemoryGauge = common.FunctionMemoryGauge(func(u common.MemoryUsage) error { totalM += u.Amount; return nil })
+				w.RecordTrace = false
+				if kind == "script" {
+					w.ScriptE(src, engine)
+				} else {
+					w.TxE(src, signers, engine)
+				}
+				w.RecordTrace = true
+				w.Restore(snap)
+				w.ComputationGauge, w.MemoryGauge = nil, nil
+				total := totalC
+				if variant == "memlimit" {
+					total = totalM
+				}
+				hv := uint64(h(seed, "lim", b.ID, txi))
+				var budget uint64
+				switch {
+				case total < 3:
+					budget = 1
+				case hv%2 == 0:
+					budget = total - 1 - (hv/2)%min(total-1, 12)
+				default:
+					budget = 1 + (hv/2)%(total-1)
+				}
 				var used uint64
-				w.ComputationGauge = common.FunctionComputationGauge(func(u common.ComputationUsage) error {
-					used += u.Intensity
-					if used > budget {
-						return limitErr{"computation"}
-					}
-					return nil
-				})
-			}
-			if variant == "memlimit" {
-				budget := uint64(200 + h(seed, "m", b.ID, txi)%20000)
-				var used uint64
-				w.MemoryGauge = common.FunctionMemoryGauge(func(u common.MemoryUsage) error {
-					used += u.Amount
-					if used > budget {
-						return limitErr{"memory"}
-					}
-					return nil
-				})
+				if variant == "complimit" {
+					w.ComputationGauge = common.FunctionComputationGauge(func(u common.ComputationUsage) error {
+						used += u.Intensity
+						if used > budget {
+							return limitErr{"computation"}
+						}
+						return nil
+					})
+				} else {
+					w.MemoryGauge = common.FunctionMemoryGauge(func(u common.MemoryUsage) error {
+						used += u.Amount
+						if used > budget {
+							return limitErr{"memory"}
+						}
+						return nil
+					})
+				}
 			}
 			var r host.Result
 			first := pos
